@@ -372,6 +372,13 @@ def compiler_fields(c: Any) -> dict:
     out["imports"] = list(c.imports)
     out["macro_order"] = list(c.macro_resolution_order)
     out["macros"] = sorted(c.macros.keys())
+    md = {}
+    for name, m in c.macros.items():
+        try:
+            md[name] = [list(m.variables), m.included__relative_path, [HEX.sub("0x?", str(o)) for o in m.blueprints], sm_json(m.source_map)]
+        except Exception as e:  # noqa
+            md[name] = ["unprintable", type(e).__name__]
+    out["macros_detail"] = md
     return out
 
 
@@ -395,7 +402,7 @@ def do_call(sess: Session, call: dict) -> dict:
         if call.get("project"):
             root = materialise(call["project"])
             fname = os.path.join(root, call["project"]["main"])
-            lookup = [os.path.join(root, x) for x in call["project"].get("lookup", [])]
+            lookup = [os.path.join(root, x) for x in call["project"].get("lookup", [])] + list(call["project"].get("lookup_rel", []))
         if slot is None:
             c = ExplorerScriptSsbCompiler(PERF_VAR, list(lookup))
         else:
@@ -450,8 +457,11 @@ def do_call(sess: Session, call: dict) -> dict:
         infos, ops, coros = shared_objects(sess, call)
         before = rsjson.rs_to_json(infos, ops, [None] * len(infos))
         ind_before = params_with_indent(ops)
+        d = SsbScriptSsbDecompiler(infos, ops, coros)
+        if call.get("keep"):
+            sess.decompilers[call["keep"]] = (d, infos, ops)
         try:
-            text, sm = SsbScriptSsbDecompiler(infos, ops, coros).convert()
+            text, sm = d.convert()
             res = {"text": text, "source_map": sm_json(sm)}
         except BaseException as e:  # noqa
             res = _exc(e)
@@ -595,6 +605,36 @@ def do_call(sess: Session, call: dict) -> dict:
     raise ValueError("unknown call kind " + kind)
 
 
+def prepare_cwd(spec: dict) -> str:
+    """{"dir": path} an existing directory | {"project": PROJECT} its root | {"decoy": [PROJECT], "base": dir}: a directory that contains, under
+    the names of the projects' relative lookup paths, same-named files whose macros have other bodies"""
+    import re
+    if "dir" in spec:
+        os.makedirs(spec["dir"], exist_ok=True)
+        return spec["dir"]
+    if "project" in spec:
+        return materialise(spec["project"])
+    base = os.path.join(spec.get("base", "/tmp/esv_proj"), "decoy_cwd")
+    marker = os.path.join(base, ".complete")
+    if not os.path.exists(marker):
+        os.makedirs(base, exist_ok=True)
+        for pr in spec["decoy"]:
+            for lp in pr.get("lookup_rel", []) + pr.get("lookup", []):
+                name = os.path.normpath(lp).replace("..", "").strip(os.sep)
+                for rel, content in pr["files"].items():
+                    if os.path.normpath(rel).startswith(name + os.sep):
+                        macros = re.findall(r"macro\s+(\w+)\s*\(([^)]*)\)", content)
+                        body = "".join(f"macro {n}({a}) {{\n    decoy_{n}(99);\n}}\n" for n, a in macros) or "macro decoy_only() {\n    d();\n}\n"
+                        path = os.path.join(base, name, os.path.relpath(rel, name))
+                        os.makedirs(os.path.dirname(path), exist_ok=True)
+                        tmp = f"{path}.{os.getpid()}.tmp"
+                        with open(tmp, "w", encoding="utf-8") as fh:
+                            fh.write(body)
+                        os.replace(tmp, path)
+        open(marker, "w").close()
+    return base
+
+
 def materialise(project: dict) -> str:
     """write the files of a generated project (import graph) below a directory named after their content; returns the root"""
     h = hashlib.sha256(json.dumps(project["files"], sort_keys=True).encode()).hexdigest()[:16]
@@ -633,6 +673,8 @@ def run_session(arg: dict) -> dict:
     import logging
     logging.disable(logging.CRITICAL)
     sys.setswitchinterval(0.005)
+    if arg.get("cwd"):
+        os.chdir(prepare_cwd(arg["cwd"]))
     compiler_only = bool(arg.get("compiler_only"))
     if compiler_only:
         compiler_only_setup(arg.get("recursion_limit", 1000))
